@@ -97,8 +97,8 @@ def run_discr(seed, budget, want=("dispatch", "roundtrip", "tagged", "purity")):
                 ill = dict(snap); ill[a["aliases"].get("x", "x")] = "nope"
                 r1 = out(lambda: deserialize(U, ill)); r2 = out(lambda: deserialize(cls, ill if a["has_field"] else {k: v for k, v in ill.items() if k != u["key"]}))
                 if r1 != r2: fail("discriminator-dispatch-differs-from-the-alternative-alone", u, datum=ill, got=r1, alternative=r2, alt=a["cls"])
-            if "roundtrip" in want and got[0] == "ok":
-                v = got[1]
+            if "roundtrip" in want:
+                v = cls(**{fn: fv for fn, _, fv in a["fields"]})          # the value is built directly: the round trip starts from it
                 s = out(lambda: serialize(U, v)); s0 = out(lambda: serialize(cls, v))
                 if s[0] != "ok" or s0[0] != "ok": fail("serialization-of-a-discriminated-value-raises", u, value=v, got=s)
                 else:
